@@ -65,6 +65,15 @@ def c20_pytz_custom_tz_copy(case, observed, expected):
 
 
 # ---------------------------------------------------------------- C01 / C09
+def _flat(x):
+    """all characters of a string / nested list of strings, concatenated"""
+    if isinstance(x, str):
+        return x
+    if isinstance(x, (list, tuple)):
+        return "".join(_flat(i) for i in x)
+    return str(x)
+
+
 def c01_text_unescape_line(case, observed, expected):
     return case.get("kf") == "unescape" and isinstance(observed, dict) and str(observed.get("line", "")).startswith("DESCRIPTION:")
 
@@ -100,7 +109,7 @@ def c01_unescape_instability(case, observed, expected):
         return False
     if a[0] != b[0] or a[1] != b[1]:
         return False
-    blob = repr(a[2]) + repr(a[3])
+    blob = _flat(a[2]) + _flat(a[3])       # the characters themselves (a repr would show CR as backslash-r)
     return ("\\" in blob or "%" in blob) and a[1] in ("vText", "vCalAddress", "vUri", "vCategory", "vInline", "vDDDTypes",
                                                         "vDDDLists", "vRecur", "vInt", "vDuration", "vPeriod", "vGeo",
                                                         "vUTCOffset", "vBoolean", "vFloat", "vBinary", "vTime", "vDatetime", "vDate")
@@ -114,7 +123,7 @@ def c01_param_backslash_lost(case, observed, expected):
     a = d.get("a")
     if d.get("what") != "prop" or not (isinstance(a, list) and len(a) in (4, 5)):
         return False
-    return any("\\" in str(v) for _k, v in a[2])
+    return any("\\" in _flat(v) for _k, v in a[2])
 
 
 def c01_suite_split_backslash(case, observed, expected):
